@@ -440,7 +440,10 @@ def compile_ast(
                 *(compile_col_expr(pred, name_in_df) for pred in predicates),
             ).with_columns(
                 # polars deletes the right column in equality predicates...
-                pl.col(name_in_df[left_col._uuid]).alias(name_in_df[right_col._uuid])
+                # (the two key columns may differ in their integer / float width)
+                pl.col(name_in_df[left_col._uuid])
+                .cast(types.without_const(right_col.dtype()).to_polars())
+                .alias(name_in_df[right_col._uuid])
                 for left_col, right_col in zip(left_on, right_on, strict=True)
                 if isinstance(left_col, Col) and isinstance(right_col, Col)
             )
